@@ -194,7 +194,8 @@ def hv_hangsafe(binary, args, runs, timeout=1800):
         if rc == 3 and "hang_run" in st and st["hang_run"] >= start and totals["hangs"] <= runs:
             totals["hangs"] += 1
             start = st["hang_run"] + 1
-            if start >= runs:
+            # three recorded hangs are evidence enough (each costs the watchdog's patience)
+            if start >= runs or totals["hangs"] >= 3:
                 totals["runs"] = runs
                 return totals
             continue
@@ -205,11 +206,16 @@ def hv_resumable(binary, args, runs, timeout=900):
     """Full-stack drivers die with the process when the code under test panics (run_internet installs a hook
     that exits): the panic is recorded in the trace, and the driver is restarted after the crashed run."""
     out_path = args[args.index("--out") + 1]
-    start, restarts = 0, 0
+    start, restarts, hangs = 0, 0, 0
     while True:
         rc, out = sh([binary] + args + ["--runs", str(runs), "--from", str(start)], cwd=ROOT, timeout=timeout)
         if rc == 0:
             return {"runs": runs, "restarts": restarts}
+        if rc == 3:
+            # the driver's watchdog recorded a scenario that never ended; three of them are evidence enough
+            hangs += 1
+            if hangs >= 3:
+                return {"runs": start, "restarts": restarts, "hangs": hangs}
         if rc == 124:
             raise ToolError("harness %s timed out" % args[0])
         last = -1
